@@ -1,4 +1,5 @@
 import Driver.Util
+import ReplicatModel.ObjCmd
 open Lean Replicat Replicat.Store Replicat.Paging
 namespace Driver.HStore
 def jstr (s : List Char) : Json := Json.str (String.ofList s)
@@ -154,6 +155,156 @@ def handleStore (op : String) (j : Json) : Except String Json := do
                       ("b2", match b2Addr n with | some a => jstr a | none => Json.null)])
   | _ => throw s!"unknown op {op}"
 
+/-! ## the object-level commands (`ObjCmd.lean`): requests `store.cmd.*` -/
+open Replicat.ObjCmd in
+/-- a path crosses the tie as its segments joined with `/` (no leading slash); the empty string is the empty path -/
+def pathOf (s : String) : LocalFS.Path := if s.isEmpty then [] else splitSlash s.toList
+
+def pathStr (p : LocalFS.Path) : String := String.ofList (joinSlash p)
+
+def getTree (j : Json) (k : String) : Except String ObjCmd.Tree := do
+  (← getArr j k).toList.mapM (fun e => do
+    let a ← e.getArr?
+    if h : a.size = 2 then pure (pathOf (← a[0].getStr?), (← unhex (← a[1].getStr?))) else throw "tree entry must be [path, hex]")
+
+def treeJson (t : ObjCmd.Tree) : Json := mapJson (t.map (fun (p, d) => (pathStr p, d)))
+
+def getStrList (j : Json) (k : String) : Except String (List String) := do
+  (← getArr j k).toList.mapM (·.getStr?)
+
+def optNat (j : Json) (k : String) : Except String (Option Nat) :=
+  match j.getObjVal? k with
+  | .ok Json.null => pure none
+  | .ok v => do pure (some (← v.getNat?))
+  | .error _ => pure none
+
+/-- `keep`: null = no regular expression, otherwise the list of names on which `re.search` succeeds -/
+def getKeep (j : Json) : Except String (Replicat.Name → Bool) :=
+  match j.getObjVal? "keep" with
+  | .ok (Json.arr a) => do
+    let l ← a.toList.mapM (fun x => do pure (← x.getStr?).toList)
+    pure (fun n => l.contains n)
+  | _ => pure (fun _ => true)
+
+/-- a command and the local tree it runs on -/
+def parseCmd (j : Json) : Except String (ObjCmd.Cmd × ObjCmd.Tree) := do
+  match (← getStr j "cmd") with
+  | "upload" =>
+    pure (.upload (pathOf (← getStr j "cwd")) ((← getStrList j "dirs").map pathOf) ((← getStrList j "paths").map pathOf) (← optNat j "rate_limit") (← getBool j "skip_existing"),
+          (← getTree j "tree"))
+  | "download" =>
+    pure (.download (← getName j "prefix") (← getKeep j) (← optNat j "rate_limit") (← getBool j "skip_existing"), (← getTree j "dir"))
+  | "list" => pure (.list (← getName j "prefix") (← getKeep j), [])
+  | "delete" =>
+    let names := (← getStrList j "names").map String.toList
+    match j.getObjVal? "cache" with
+    | .ok (Json.arr _) => pure (.delete names (← getBool j "confirm") (← getName j "answer") true, (← getTree j "cache"))
+    | _ => pure (.delete names (← getBool j "confirm") (← getName j "answer") false, [])
+  | c => throw s!"unknown command {c}"
+
+def opKind : Op → String × Replicat.Name
+  | .upload n _ => ("put", n)
+  | .uploadStream n _ _ => ("put", n)
+  | .delete n => ("del", n)
+  | .exists_ n => ("exists", n)
+  | .download n => ("get", n)
+  | .downloadStream n _ _ => ("get", n)
+  | .list p => ("list", p)
+
+def outJson : ObjCmd.Out → Json
+  | .none => Json.mkObj [("none", Json.bool true)]
+  | .files l => Json.mkObj [("files", Json.arr ((sortStrs (l.map pathStr)).map Json.str).toArray)]
+  | .names l => Json.mkObj [("names", Json.arr ((sortStrs (l.map String.ofList)).map Json.str).toArray)]
+
+/-- the backend calls of a run, canonical: sorted `kind name` (the real calls run concurrently), stream chunk sizes apart -/
+def traceJson (tr : List (Op × Ret)) : Json :=
+  let rows := sortStrs (tr.map (fun (op, _) => (opKind op).1 ++ " " ++ String.ofList (opKind op).2))
+  Json.arr (rows.map Json.str).toArray
+
+def chunksJson (tr : List (Op × Ret)) : Json :=
+  let cs := tr.filterMap (fun (op, _) => match op with | .uploadStream _ _ c => some c | .downloadStream _ c _ => some c | _ => none)
+  natArr cs.eraseDups
+
+def runCmds {σ : Type} (step : σ → Op → σ × Ret) (concurrent : Nat) : σ → List (ObjCmd.Cmd × ObjCmd.Tree) → σ × List Json
+  | s, [] => (s, [])
+  | s, (c, loc) :: rest =>
+    let r := c.run step concurrent s loc
+    let j := Json.mkObj [
+      ("out", match r.res with | .ok o => outJson o | .error _ => Json.null),
+      ("error", match r.res with | .ok _ => Json.null | .error e => Json.str (errStr e)),
+      ("loc", treeJson r.loc), ("trace", traceJson r.tr), ("chunks", chunksJson r.tr)]
+    let k := runCmds step concurrent r.st rest
+    (k.1, j :: k.2)
+
+def preload {σ : Type} (step : σ → Op → σ × Ret) (s : σ) (objs : List (Replicat.Name × Bytes)) : σ :=
+  objs.foldl (fun s (n, d) => (step s (.upload n d)).1) s
+
+/-- the backend call every pick of a schedule makes (`none` for a pick of a finished or unknown task) -/
+def schedCalls (skip : Bool) : Spec → List ObjCmd.Task → List Replicat.Name → List String
+  | _, _, [] => []
+  | m, ts, n :: sched =>
+    let k := match ts.find? (fun t => decide (t.name = n)) with
+      | none => "none"
+      | some t => match t.nextCall skip with
+        | some op => (opKind op).1
+        | none => "none"
+    (k ++ " " ++ String.ofList n) :: schedCalls skip (ObjCmd.stepTask skip m ts n).1 (ObjCmd.stepTask skip m ts n).2 sched
+
+/-- `store.cmd.run`: a scenario = initial objects + a list of commands, each with its local tree; the backend state chains -/
+def handleCmd (op : String) (j : Json) : Except String Json := do
+  match op with
+  | "store.cmd.run" =>
+    let adapter ← getStr j "adapter"
+    let concurrent ← getNat j "concurrent"
+    let objs ← (← getArr j "store").toList.mapM (fun e => do
+      let a ← e.getArr?
+      if h : a.size = 2 then pure ((← a[0].getStr?).toList, (← unhex (← a[1].getStr?))) else throw "object must be [name, hex]")
+    let cmds ← (← getArr j "cmds").toList.mapM parseCmd
+    match adapter with
+    | "spec" =>
+      let (s, rs) := runCmds MapStore.step concurrent (preload MapStore.step ([] : MapStore) objs) cmds
+      pure (Json.mkObj [("results", Json.arr rs.toArray), ("state", mapJson (s.map (fun (n, d) => (String.ofList n, d))))])
+    | "s3" =>
+      let ps ← getNat j "ps"
+      let (s, rs) := runCmds (S3.step ps) concurrent (preload (S3.step ps) ([] : S3) objs) cmds
+      pure (Json.mkObj [("results", Json.arr rs.toArray), ("state", mapJson (s.map (fun (n, d) => (String.ofList n, d))))])
+    | "b2" =>
+      let ps ← getNat j "ps"
+      let (s, rs) := runCmds (B2.step ps) concurrent (preload (B2.step ps) ([] : B2) objs) cmds
+      let live := s.filterMap (fun (n, _) => (B2.visible s n).map (fun d => (String.ofList n, d)))
+      pure (Json.mkObj [("results", Json.arr rs.toArray), ("state", mapJson live)])
+    | "local" =>
+      let root ← getName j "root"
+      let (s, rs) := runCmds (LocalFS.step root) concurrent (preload (LocalFS.step root) LocalFS.FS.empty objs) cmds
+      let files := s.files.map (fun (p, d) => (String.ofList (joinSlash p), d))
+      let dirs := sortStrs (s.dirs.map (fun p => String.ofList (joinSlash p)))
+      pure (Json.mkObj [("results", Json.arr rs.toArray), ("state", mapJson files), ("dirs", Json.arr (dirs.map Json.str).toArray)])
+    | a => throw s!"unknown adapter {a}"
+  | "store.cmd.schedule" =>
+    -- the gathered upload tasks under an observed schedule (`runSchedule`): the call each pick makes, whether all tasks finish, the map afterwards
+    let objs ← (← getArr j "store").toList.mapM (fun e => do
+      let a ← e.getArr?
+      if h : a.size = 2 then pure ((← a[0].getStr?).toList, (← unhex (← a[1].getStr?))) else throw "object must be [name, hex]")
+    let its ← (← getArr j "items").toList.mapM (fun e => do
+      let a ← e.getArr?
+      if h : a.size = 2 then pure ((← a[0].getStr?).toList, (← unhex (← a[1].getStr?))) else throw "item must be [name, hex]")
+    let skip ← getBool j "skip_existing"
+    let sched := (← getStrList j "schedule").map String.toList
+    let m0 : Spec := MapStore.abs (preload MapStore.step ([] : MapStore) objs)
+    let r := ObjCmd.runSchedule skip m0 (ObjCmd.initTasks its) sched
+    let names := ((objs.map (·.1)) ++ (its.map (·.1))).eraseDups
+    let state := names.filterMap (fun n => (r.1 n).map (fun d => (String.ofList n, d)))
+    pure (Json.mkObj [("calls", Json.arr ((schedCalls skip m0 (ObjCmd.initTasks its) sched).map Json.str).toArray),
+                      ("done", Json.bool (r.2.all (fun t => t.phase = .done))), ("state", mapJson state)])
+  | "store.cmd.name" =>
+    -- the object name `upload_objects` derives for a file, given the working directory
+    pure (Json.mkObj [("name", jstr (ObjCmd.objectName (pathOf (← getStr j "cwd")) (pathOf (← getStr j "file"))))])
+  | "store.cmd.chunk" =>
+    pure (Json.mkObj [("chunk", match ObjCmd.chunkSize (← getNat j "concurrent") (← optNat j "rate_limit") with
+      | some c => jnat c | none => Json.null)])
+  | _ => throw s!"unknown op {op}"
+
 end Driver.HStore
 
-def Driver.handleStore := Driver.HStore.handleStore
+def Driver.handleStore (op : String) (j : Lean.Json) : Except String Lean.Json :=
+  if op.startsWith "store.cmd." then Driver.HStore.handleCmd op j else Driver.HStore.handleStore op j
